@@ -452,6 +452,9 @@ def build_rockit(case, rockit, with_method=True, with_values=True, with_solver=T
     for t in case.get("objective", []):
         ocp.add_objective(pex(t))
 
+    # explicit guesses for a free horizon (C11): set_initial(ocp.T, v) / set_initial(ocp.t0, v)
+    for nm, v in (case.get("horizon_guess") or {}).items():
+        ocp.set_initial(ocp.T if nm == "T" else ocp.t0, float(Fr(v)))
     if with_values:
         apply_param_values(B, case)
     if with_method:
